@@ -12,9 +12,9 @@ NotifyOp(b) == [op |-> "notify", batch |-> b]
 Simple(o) == [op |-> o]
 
 (* W1: the map laws (C02): loads, owned, get, goi, remove, take, clear ------ *)
-W1Keys == {K("L0","a"), K("L1","a"), K("L2","a"), K("L0","b"), K("N0","a"), K("S0","a"), K("N1","b")}
-W1Files == {F("a","x"), F("a","y"), F("b","x")}
-W1Srcs == {[f \in W1Files |-> CASE f = F("a","x") -> CVal(1) [] f = F("a","y") -> CVal(2) [] OTHER -> None]}
+W1Keys == {K("L0","a"), K("L1","a"), K("L2","a"), K("L0","b"), K("N0","a"), K("S0","a"), K("N1","b"), K("L0","c/a"), K("L0","c")}
+W1Files == {F("a","x"), F("a","y"), F("b","x"), F("c/a","x"), F("c","x")}
+W1Srcs == {[f \in W1Files |-> CASE f = F("a","x") -> CVal(1) [] f = F("a","y") -> CVal(2) [] f = F("c/a","x") -> CVal(4) [] OTHER -> None]}
 W1Scripts == (K("N0","a") :> <<ILoad("L0","a",TRUE), ILoad("L2","a",FALSE), IGet("L0","b")>>)
           \* a load that stores a placeholder under its own key before it returns (re-entrancy)
           @@ (K("N1","b") :> <<IGoi("N1","b",5), ILoad("L0","a",FALSE)>>)
@@ -22,7 +22,8 @@ W1Ops ==
     Call("load", W1Keys \ {K("S0","a")}) \cup Call("get", W1Keys) \cup Call("remove", W1Keys \ {K("L1","a")})
     \cup Call("owned", {K("L0","a"), K("N0","a")}) \cup Call("take", {K("L0","a"), K("N0","a"), K("S0","a")})
     \cup Call("contains", {K("L0","a"), K("L2","a")})
-    \cup {[op |-> "goi", k |-> k, n |-> 7] : k \in {K("S0","a"), K("L0","a"), K("L0","b")}}
+    \cup {[op |-> "goi", k |-> k, n |-> 7] : k \in {K("S0","a"), K("L0","a"), K("L0","b"), K("L0","c/a")}}
+    \cup Call("load", {K("L0","c/a")}) \cup Call("remove", {K("L0","c/a")}) \cup Call("contains", {K("L0","c/a")})
     \cup {Simple("clear")}
     \cup {EditOp(F("b","x"), CVal(3)), EditOp(F("a","x"), CBad), EditOp(F("a","x"), None)}
 
@@ -90,6 +91,12 @@ W5Ops == Call("load", {K("DL0","d"), K("DL1","d"), K("RL0",""), K("DL0","")}) \c
          \cup {EditOp(F("d.a","y"), CVal(2)), EditOp(F("d.a","x"), None), EditOp(F("d.e.a","x"), CVal(4)),
                EditOp(F("d.b","y"), None), [op |-> "mkdir", d |-> "d.e"]}
 
+(* W5f: faults while listing directories (C09, C11) ---------------------------- *)
+W5fSrcs == {[f \in W5Files |-> IF f \in {F("a","x"), F("d.a","x"), F("d.b","y"), F("d.e.a","x")} THEN CVal(1) ELSE None]}
+W5fArms == {[op |-> "arm", what |-> "readdir", at |-> n, kind |-> kd] : n \in 0..3, kd \in {"notfound", "other"}}
+W5fOps == Call("load", {K("RL0",""), K("RL0","d"), K("DL0","d")}) \cup W5fArms \cup {Simple("disarm"), Simple("hot_reload"),
+          NotifyOp({DirE("d")}), EditOp(F("d.a","x"), None)}
+
 (* W6: what is declared non-reloadable (C10; the D7 history) ---------------- *)
 W6Keys == {K("L0","a"), K("L2","a"), K("S0","a"), K("N4","a"), K("AL2","a"), K("AL0","a")}
 W6Files == {F("a","x")}
@@ -117,7 +124,9 @@ W7cArms == {[op |-> "arm", what |-> "read", at |-> n, kind |-> kd] : n \in 0..2,
            \cup {[op |-> "arm", what |-> w, at |-> 0, kind |-> "other"] : w \in {"loader", "panic"}}
 W7cOps == Call("load", {K("N1","d")}) \cup W7cArms \cup {Simple("disarm"), Simple("hot_reload"),
           NotifyOp({FileE("b","x"), FileE("a","y")}), NotifyOp({FileE("a","y")}), EditOp(F("b","x"), CVal(2)), EditOp(F("a","y"), CVal(3)),
-          EditOp(F("a","y"), CBad)}
+          EditOp(F("a","y"), CBad),
+          \* the file of the higher-priority extension, absent when the asset was loaded, appears
+          EditOp(F("a","x"), CVal(5)), NotifyOp({FileE("a","x")})}
 
 (* W6d: the shortest histories around remove / clear / get_or_insert --------- *)
 W6dOps == Call("load", {K("L0","a")}) \cup Call("remove", {K("L0","a")})
